@@ -3,6 +3,7 @@ import Spec
 import Gen
 import Model.Mux
 import Spec.Dispatch
+import Proofs.Dict
 /-!
   C09 — dispatch selects the handler by index, then by name, then the catch-all.
 -/
@@ -179,6 +180,47 @@ theorem C09_lastwins (rs : List Reg) (app code : Nat) (req : Bool) (h : Nat) (s 
       | nil => simp [lastReg, byIdx]
       | cons r rs ih => simp [lastReg, ih]
     simp [Spec.dispatch, this]
+
+/-- end to end, dictionary included: for EVERY list of dictionary files loaded, every sequence of
+    registrations and every message, what `ServeDIAM` does is the decision table applied to the
+    short name that the *log* of definitions gives the command - the latest definition in the
+    message's own application, else the latest in the base application (C17) -/
+theorem C09_serve (available : List (Nat × Nat)) (fs : List FileRow) (rs : List Reg) (app code : Nat) (req : Bool) :
+    (Mux.ofRegs rs).serve (Parser.loadAll available fs) app code req =
+      Spec.dispatch rs ((Spec.findCommand (logAll available fs) app code).map (·.short)) app code req := by
+  unfold Mux.serve
+  rw [C09_decision, findCommand_refines _ _ (loadAll_refines available fs) app code]
+
+/-- the catch-all has one key: registering it through `HandleIdx(ALL_CMD_INDEX, h)` or through
+    `Handle("ALL", h)` is the same registration, so either replaces the other -/
+theorem C09_all_one_key (mux : Mux) (h : Nat) :
+    mux.reg (.idx allIdx.1 allIdx.2.1 allIdx.2.2 h) = mux.reg (.all h) := rfl
+
+theorem C09_all_replaced_across_apis (rs : List Reg) (h h' : Nat) (short : Option Nat) (app code : Nat) (req : Bool)
+    (hi : lastReg (byIdx app code req) (rs ++ [.all h, .idx allIdx.1 allIdx.2.1 allIdx.2.2 h']) = none)
+    (hn : ∀ s, short = some s → lastReg (byName s req) (rs ++ [.all h, .idx allIdx.1 allIdx.2.1 allIdx.2.2 h']) = none) :
+    (Mux.ofRegs (rs ++ [.all h, .idx allIdx.1 allIdx.2.1 allIdx.2.2 h'])).dispatch short app code req = .handler h' := by
+  rw [C09_decision]
+  have hall : lastReg byAll (rs ++ [.all h, .idx allIdx.1 allIdx.2.1 allIdx.2.2 h']) = some h' := by
+    induction rs with
+    | nil => simp [lastReg, byAll, allIdx]
+    | cons r rs ih =>
+      have ih' := ih (by
+        simp only [List.cons_append, lastReg] at hi
+        cases hl : lastReg (byIdx app code req) (rs ++ [Reg.all h, Reg.idx allIdx.1 allIdx.2.1 allIdx.2.2 h']) with
+        | none => rfl
+        | some x => rw [hl] at hi; cases hi) (by
+        intro s hs
+        have := hn s hs
+        simp only [List.cons_append, lastReg] at this
+        cases hl : lastReg (byName s req) (rs ++ [Reg.all h, Reg.idx allIdx.1 allIdx.2.1 allIdx.2.2 h']) with
+        | none => rfl
+        | some x => rw [hl] at this; cases this)
+      simp only [List.cons_append, lastReg, ih']
+  unfold Spec.dispatch
+  cases short with
+  | none => simp [hall]
+  | some s => simp [hi, hn s rfl, hall]
 
 theorem C09_gen : Gen.allCmdIndex = (4294967295, 4294967295, 0) ∧ Gen.capErrorReports = 1 ∧
     Gen.muxServeRLockDeferred = true := by decide
